@@ -43,11 +43,11 @@ const (
 	pMoQ2
 	pMoQ3
 	pMoQQ
-	pAltMcRTP = 30 // even
-	pAltMcRTCP
-	pAltMcSRTP // even
-	pAltMcSRTCP
-	portBlock = 40
+	pAltMcRTP   = 30 // even
+	pAltMcRTCP  = 31
+	pAltMcSRTP  = 32 // even
+	pAltMcSRTCP = 33
+	portBlock   = 40
 )
 
 // baseConf: every component enabled, everything on loopback in the worker's port block.
@@ -194,24 +194,25 @@ func deltas() []Delta {
 		g("rtsp", "srtpAddress", addrAlt(pSRTP)),
 		g("rtsp", "srtcpAddress", addrAlt(pSRTCP)),
 		g2("rtsp", "multicastSRTPPort", iport(pAltMcSRTP), "multicastSRTCPPort", iport(pAltMcSRTCP)),
-		g("rtsp", "rtspServerKey", "alt.key"),
-		g("rtsp", "rtspServerCert", "alt.crt"),
+		g2("rtsp", "rtspServerKey", "alt.key", "rtspServerCert", "alt.crt"), // in use (RTSPS is enabled): only valid together
 		g("rtsp", "rtspAuthMethods", []any{"basic", "digest"}),
 		g("rtsp", "rtspTrustedProxies", ip),
 		dep("rtsp", "rtspUDPReadBufferSize", 65536),
 		dep("rtsp", "rtspDisable", true),
 		dep("rtsp", "protocols", []any{"tcp"}),
-		dep("rtsp", "encryption", "strict"),
-		dep("rtsp", "serverKey", "alt.key"),
-		dep("rtsp", "serverCert", "alt.crt"),
+		dep("rtsp", "encryption", "strict"), dep("rtsp", "encryption", "no"),
+		func() Delta {
+			d := g2("rtsp", "serverKey", "alt.key", "serverCert", "alt.crt")
+			d.Dep = true
+			return d
+		}(),
 		dep("rtsp", "authMethods", []any{"basic", "digest"}),
 		// RTMP
 		g("rtmp", "rtmp", false),
 		g("rtmp", "rtmpEncryption", "no"), g("rtmp", "rtmpEncryption", "strict"),
 		g("rtmp", "rtmpAddress", addrAlt(pRTMP)),
 		g("rtmp", "rtmpsAddress", addrAlt(pRTMPS)),
-		g("rtmp", "rtmpServerKey", "alt.key"),
-		g("rtmp", "rtmpServerCert", "alt.crt"),
+		g2("rtmp", "rtmpServerKey", "alt.key", "rtmpServerCert", "alt.crt"),
 		g("rtmp", "rtmpTrustedProxies", ip),
 		dep("rtmp", "rtmpDisable", true),
 		// HLS
@@ -264,8 +265,7 @@ func deltas() []Delta {
 		g("moq", "moqHTTP2Address", addrAlt(pMoQ2)),
 		g("moq", "moqHTTP3Address", addrAlt(pMoQ3)),
 		g("moq", "moqQUICAddress", addrAlt(pMoQQ)),
-		g("moq", "moqServerKey", "alt.key"),
-		g("moq", "moqServerCert", "alt.crt"),
+		g2("moq", "moqServerKey", "alt.key", "moqServerCert", "alt.crt"),
 		g("moq", "moqAllowOrigins", []any{"http://a.example"}),
 		g("moq", "moqTrustedProxies", ip),
 		dep("moq", "moqHTTPS2Address", addrAlt(pMoQ2)),
